@@ -573,6 +573,91 @@ def rule_arrayadd(chk, prog, tier):
     r.exhaustive = False
 
 
+# ------------------------------------------------------------------ C19.n object sizes in the back end
+
+def rule_objsize(chk, prog, tier):
+    r = chk.rule('C19.n', 'the back end finds a size for every array type the declarator accepts: funcalloc() of an object of that type and the value of sizeof reach no internal assertion and no null size value - '
+                 'constant-size arrays (also of length zero, the GNU extension the declarator accepts) allocate and measure their constant size, variable-length arrays the computed product',
+                 floor=12, oracle='the declarator (decl.c) is the producer of the type classes; C11 6.5.3.4p2')
+    from props import c06
+    fa = prog.require_func('funcalloc', 'qbe.c'); ue = prog.require_func('unaryexpr', 'expr.c'); fe = prog.require_func('funcexpr', 'qbe.c')
+    CASES = [('int', (3,), ()), ('int', (0,), ()), ('char', (0,), ()), ('S12', (0,), ()), ('int', (2, 0), ()), ('int', (0, 2), ()), ('int', (2, 3), ()), ('long', (1,), ()),
+             ('int', (5,), (0,)), ('int', (5, 3), (0,)), ('int', (5, 0), (0,)), ('int', (5, 3), (1,)), ('int', (0, 3), (1,)), ('int', (5, 3), (0, 1))]
+    def work(case):
+        el, dims, vla = case
+        def runner(it):
+            it.MAX_STEPS = 10 ** 7
+            w = World(prog, it=it, target='x86_64-sysv')
+            t = c06.array_type(prog, it, w, el, dims, vla)
+            M = cmodel.backend_models(prog)
+            it.models.update(M)
+            it.models.update({'funcexpr': None, 'convert': lambda i2, a, e: a[3]})
+            lenval = {}
+            def fexpr(i2, a, e):
+                k = i2.load(a[1].obj, ('kind',))
+                if k == ev(prog, 'EXPRSIZEOF'): return i2.call(fe, a, real=True) if False else None
+                v = lenval.setdefault(a[1].obj.id, cmodel.val('len%d' % len(lenval)))
+                i2.event('eval-length', v)
+                return v
+            it.models['funcexpr'] = fexpr
+            f = Obj('func', 'heap'); st = Ptr(Obj('start', 'heap'), ()); en = Ptr(Obj('end', 'heap'), ())
+            f.f.update({('start',): st, ('end',): en})
+            d = Obj('decl', 'heap'); d.f.update({('type',): t, ('u', 'obj', 'align'): it.load(t.obj, t.path + ('align',)), ('value',): None})
+            it.call(fa, [Ptr(f, ()), Ptr(d, ())])
+            allocs = [e_ for e_ in it.events if e_[0] == 'inst' and str(e_[1]).startswith('IALLOC')]
+            muls = [e_ for e_ in it.events if e_[0] == 'inst' and e_[1] == 'IMUL']
+            out = {'alloc': None, 'nmul': len(muls)}
+            if len(allocs) == 1:
+                a0 = allocs[0][3]
+                out['alloc'] = a0[1] if isinstance(a0, tuple) and a0[0] == 'const' else ('value' if isinstance(a0, Ptr) else None)
+                out['alloc-is-product'] = bool(muls) and isinstance(a0, Ptr) and a0.obj is muls[-1][5].obj
+            # ---- sizeof applied to an expression of that type
+            del it.events[:]
+            tokobj = it.gobj('tok'); seq = ['TSIZEOF', 'TIDENT', 'TSEMICOLON']; cur = {'i': 0}
+            operand = w.mkexpr('EXPRIDENT', t); operand.obj.f[('lvalue',)] = 1
+            def load():
+                tokobj.f[('kind',)] = ev(prog, seq[min(cur['i'], 2)]); tokobj.f[('lit',)] = None
+            def nxt(i2, a, e): cur['i'] += 1; load(); return None
+            def pf(i2, a, e): nxt(i2, a, e); return operand
+            it.models.update({'next': nxt, 'consume': lambda i2, a, e: 0, 'castexpr': pf, 'postfixexpr': pf})
+            load()
+            res = it.call(ue, [Ptr(Obj('scope', 'heap'), ())])
+            k = it.load(res.obj, ('kind',))
+            if k == ev(prog, 'EXPRCONST'):
+                out['sizeof'] = it.load(res.obj, ('u', 'constant', 'u'))
+            elif k == ev(prog, 'EXPRSIZEOF'):
+                # the real funcexpr arm for EXPRSIZEOF: calcvla + the stored size value
+                st_t = it.load(res.obj, ('u', 'szof', 'type'))
+                it.call('calcvla', [Ptr(f, ()), st_t])
+                sv = it.load(st_t.obj, st_t.path + ('u', 'array', 'size'))
+                out['sizeof'] = 'value' if isinstance(sv, Ptr) else ('null' if sv is None else repr(sv))
+            else:
+                out['sizeof'] = 'kind %s' % k
+            return out
+        runs = explore(prog, runner, {}, max_runs=4, on_unsupported='keep')
+        if len(runs) != 1: return case, 'paths', len(runs)
+        return case, runs[0].outcome, (runs[0].value if runs[0].outcome == 'return' else runs[0].detail)
+    import par
+    ES = {'int': 4, 'char': 1, 'S12': 12, 'long': 8}
+    for (el, dims, vla), outcome, val in par.pmap(work, CASES):
+        key = 'objsize:%s%s' % (el, ''.join('[n]' if k in vla else '[%d]' % n for k, n in enumerate(dims)))
+        if outcome == 'unsupported' and 'uninitialised' in str(val):
+            r.instance(False, key, 'qbe.c:funcalloc', 'the back end reads a size value nothing has stored (indeterminate): %s' % val); continue
+        if outcome == 'unsupported' or outcome == 'paths':
+            raise AnalysisBroken('%s: %s %s' % (key, outcome, val))
+        if outcome != 'return':
+            r.instance(False, key, 'qbe.c:funcalloc', 'an array type the declarator accepts ends the compiler: %s %s' % (outcome, val)); continue
+        if vla:
+            ok = val['alloc'] == 'value' and val.get('alloc-is-product') and val['sizeof'] == 'value'
+            r.instance(bool(ok), key, 'qbe.c:funcalloc', 'a variable-length array allocates and measures the computed product length * element size; found %s' % (val,))
+        else:
+            size = ES[el]
+            for n in dims: size *= n
+            ok = val['alloc'] == size and val['sizeof'] == size and val['nmul'] == 0
+            r.instance(bool(ok), key, 'qbe.c:funcalloc', 'constant size %d expected for the allocation and for sizeof, no run-time product; found %s' % (size, val))
+    r.exhaustive = False
+
+
 def run(chk, tier):
     progs = facts.programs()
     prog = progs['cproc-qbe']
@@ -588,6 +673,7 @@ def run(chk, tier):
     chk.guard('C19.k', lambda: rule_tokendesc(chk, prog, tier))
     chk.guard('C19.l', lambda: rule_pp_uaf(chk, prog, tier))
     chk.guard('C19.m', lambda: rule_arrayadd(chk, prog, tier))
+    chk.guard('C19.n', lambda: rule_objsize(chk, prog, tier))
     from props import c14, c04
     chk.guard('C14.a', lambda: c14.rule_escapes(chk, prog, tier))       # the scanner invariant decodechar's assertions rely on
     chk.guard('C04.c', lambda: c04.rule_traps(chk, prog, tier))         # no trapping host arithmetic in the folder
